@@ -27,7 +27,7 @@ FOCUS = {
     # many linked rows first, then sessions that meet them partly loaded (see op_partial)
     'partial': {'new': 10, 'add': 9, 'rel': 5, 'create_in': 3, 'partial': 12, 'seq_in': 3, 'r_coll': 3, 'commit': 1,
                 'del': 1, 'remove': 2, 'fail_probe': 2},
-    'order': {'cycle': 3, 'new': 10, 'rel': 6, 'del': 5, 'add': 3, 'create_in': 4, 'flush': 1, 'late_link': 6, 'oflush': 2},
+    'order': {'cycle': 3, 'chain': 6, 'new': 10, 'rel': 6, 'del': 5, 'add': 3, 'create_in': 4, 'flush': 1, 'late_link': 6, 'oflush': 2},
 }
 
 SESSION_OPTS = [({}, 10), ({'immediate': True}, 2), ({'optimistic': False}, 2), ({'serializable': True}, 1),
